@@ -284,19 +284,26 @@ Inductive ins_res :=
 Definition mk (ic : nat) (leaf : bool) (ks : list Z) (cs : list node) : node :=
   Node (if leaf then leaf_cap ic (length ks) else maxCap) ks cs.
 
-(* Relocator::SplitNode / pvSplitNode: node n is full, the new item x goes to index c (for an internal node
-   sub = [newNode1; newNode2] of the split child replace child c).  s = GetSplitItemIndex(count, c).
-   pvSplitNode's two branches copy three segments each; their net effect is: insert x at c (and sub at child c),
-   then cut the (count+1)-item sequence at s' = s+1 (c <= s: new item goes left) or s' = s (c > s: right):
-   left node = items [0,s'), separator = item s' (always the OLD item s), right node = items (s', count]. *)
+(* Relocator::pvSplitNode, literally: s = GetSplitItemIndex(count, c); the six AddSegment calls of the two branches
+   (seg l b n = AddSegment(src, b, .., n)), the new item x at index c (for an internal node the loop of SplitNode copies
+   every child except child c and leaves two slots for sub = [newNode1; newNode2] of the split child), and the OLD
+   item s as the separator that moves up. *)
+Definition split_parts (ks : list Z) (cs sub : list node) (cnt c s : nat) (x : Z)
+  : (list Z * list node) * Z * (list Z * list node) :=
+  if c <=? s then
+    ((seg ks 0 c ++ x :: seg ks c (s - c), seg cs 0 c ++ sub ++ seg cs (S c) (s - c)),
+     nth s ks 0%Z,
+     (seg ks (S s) (cnt - s - 1), seg cs (S s) (cnt - s)))
+  else
+    ((seg ks 0 s, seg cs 0 (S s)),
+     nth s ks 0%Z,
+     (seg ks (S s) (c - s - 1) ++ x :: seg ks c (cnt - c), seg cs (S s) (c - s - 1) ++ sub ++ seg cs (S c) (cnt - c))).
+
 Definition split_node (ic : nat) (n : node) (c : nat) (x : Z) (sub : list node) (pos_of : nat -> iter) : ins_res :=
   let leaf := is_leaf n in
-  let ks' := insert_at c x (n_items n) in
-  let cs' := firstn c (n_children n) ++ sub ++ skipn (S c) (n_children n) in
   let s := split_index (n_count n) c in
-  let s' := if c <=? s then S s else s in
-  Split (mk ic leaf (firstn s' ks') (firstn (S s') cs')) (nth s' ks' 0%Z)
-        (mk ic leaf (skipn (S s') ks') (skipn (S s') cs'))
+  let '((ks1, cs1), sep, (ks2, cs2)) := split_parts (n_items n) (n_children n) sub (n_count n) c s x in
+  Split (mk ic leaf ks1 cs1) sep (mk ic leaf ks2 cs2)
         (negb (c <=? s)) (pos_of (if c <=? s then c else c - s - 1)).
 
 (* pvAdd below the root: p is the path to the LEAF, j the index in it.  In-leaf insert, pvAddGrow, or the
@@ -730,5 +737,125 @@ Definition merge_to (src dst : tree) : option (tree * tree) :=
     else if count * Nat.log2 (count + dcount) <? count + dcount
          then Some (merge_generic (S count) src dst (begin_iter src))
          else Some (merge_linear (S (count + dcount)) src dst (begin_iter src) (begin_iter dst)).
+
+(* ---------- Remove(begin, end) / pvRemoveRange ---------- *)
+(* a node on the left border keeps what is left of child c / item k; on the right border what is right of it *)
+Definition trunc_right (c : nat) (n : node) : node := Node (n_cap n) (firstn c (n_items n)) (firstn (S c) (n_children n)).
+Definition trunc_left (c : nat) (n : node) : node := Node (n_cap n) (skipn c (n_items n)) (skipn c (n_children n)).
+
+(* the left branch below the common parent: every node on the path q is cut to the right of the path
+   (pvDestroyInternal(node, i-1, true) for i = count .. index+1), the last node keeps its first k items *)
+Fixpoint left_edit (q : list nat) (k : nat) (n : node) : node :=
+  match q with
+  | [] => trunc_right k n
+  | c :: q' =>
+      match nth_error (n_children n) c with
+      | Some ch => Node (n_cap n) (firstn c (n_items n)) (firstn c (n_children n) ++ [left_edit q' k ch])
+      | None => trunc_right c n
+      end
+  end.
+(* the right branch: cut to the left of the path; the last node loses its first k items (and children) *)
+Fixpoint right_edit (q : list nat) (k : nat) (n : node) : node :=
+  match q with
+  | [] => trunc_left k n
+  | c :: q' =>
+      match nth_error (n_children n) c with
+      | Some ch => Node (n_cap n) (skipn c (n_items n)) (right_edit q' k ch :: skipn (S c) (n_children n))
+      | None => trunc_left c n
+      end
+  end.
+
+Fixpoint cprefix (a b : list nat) : list nat * list nat * list nat :=   (* common prefix, rest of a, rest of b *)
+  match a, b with
+  | x :: a', y :: b' => if x =? y then let '(c, ra, rb) := cprefix a' b' in (x :: c, ra, rb) else ([], a, b)
+  | _, _ => ([], a, b)
+  end.
+
+(* `while (itemIndex1 == 0) { pvToParent(node1, itemIndex1); if (node1 == comNode) break; }` on the reversed path *)
+Fixpoint climb0 (rq : list nat) (idx : nat) : list nat * nat :=
+  match idx with
+  | S _ => (rq, idx)
+  | 0 => match rq with
+         | [] => ([], 0)
+         | c :: rq' => match rq' with [] => ([], c) | _ => climb0 rq' c end
+         end
+  end.
+
+(* pvRemoveRange(node1, itemIndex1, node2, itemIndex2) + the two pvRebalance(.., false) + pvMakeIterator(resNode, 0, true) *)
+Definition remove_range_root (r : node) (it1 itp : iter) : node * iter :=
+  let '(p1, i1) := it1 in let '(p2, i2) := itp in
+  let '(cp, rest1, rest2) := cprefix p1 p2 in
+  match node_at cp r with
+  | None => (r, it1)
+  | Some com =>
+      let ci1 := match rest1 with [] => i1 | c :: _ => c end in
+      let '(p1d, i1d) := leaf_pos (height r) p1 r i1 in
+      let q1full := skipn (length cp) p1d in
+      let '(rq1, k1) := climb0 (rev q1full) i1d in
+      let q1 := rev rq1 in
+      let has_left := match q1 with [] => false | _ => true end in
+      (* left side *)
+      let x := match node_at (cp ++ q1) r with Some nd => nth (k1 - 1) (n_items nd) 0%Z | None => 0%Z end in
+      let ci1' := if has_left then S ci1 else ci1 in
+      let items1 := if has_left then replace_at ci1 x (n_items com) else n_items com in
+      let children1 :=
+        if has_left then
+          match nth_error (n_children com) ci1 with
+          | Some ch => replace_at ci1 (left_edit (tl q1) (k1 - 1) ch) (n_children com)
+          | None => n_children com
+          end
+        else n_children com in
+      (* right side *)
+      let '(ci2', rchild) :=
+        match rest2 with
+        | [] => (S i2, nth_error (n_children com) (S i2))
+        | c2 :: q2 => (c2, match nth_error (n_children com) c2 with Some ch => Some (right_edit q2 (S i2) ch) | None => None end)
+        end in
+      match rchild with
+      | None => (r, it1)
+      | Some rc =>
+          let com' := Node (n_cap com) (firstn ci1' items1 ++ skipn ci2' (n_items com))
+                           (firstn ci1' children1 ++ rc :: skipn (S ci2') (n_children com)) in
+          let r1 := update_at cp (fun _ => com') r in
+          let resp := cp ++ ci1' :: leftmost (height rc) rc in
+          let '(r3, sp3) :=
+            if has_left then
+              let '(r2, sp2) := rebalance r1 (cp ++ q1) resp false in rebalance r2 sp2 sp2 false
+            else rebalance r1 resp resp false in
+          (r3, move_if r3 (sp3, 0))
+      end
+  end.
+
+(* Remove(begin, end): it1 = begin, it2 = end, given with their indexes h1 <= h2 *)
+Definition remove_range (t : tree) (h1 h2 : nat) : tree * iter :=
+  let it1 := nth_iter t h1 in let it2 := nth_iter t h2 in
+  match root t with
+  | None => (t, it1)
+  | Some r =>
+      let rem := h2 - h1 in
+      if rem =? 0 then (t, it2)
+      else if rem =? cnt t then (empty_tree, ([], 0))
+      else
+        let itp := prev t it2 in
+        let same_leaf := list_eqb (fst it1) (fst itp) &&
+                         match node_at (fst it1) r with Some nd => is_leaf nd | None => false end in
+        if same_leaf then
+          let r1 := update_at (fst it1)
+                      (fun n => Node (n_cap n) (firstn (snd it1) (n_items n) ++ skipn (S (snd itp)) (n_items n)) (n_children n)) r in
+          let '(r2, sp) := rebalance r1 (fst it1) (fst it1) true in
+          ({| root := Some r2; cnt := cnt t - rem |}, move_if r2 (sp, snd it1))
+        else
+          let '(r3, it3) := remove_range_root r it1 itp in
+          ({| root := Some r3; cnt := cnt t - rem |}, it3)
+  end.
+
+(* Remove(const Key&) for multi keys: the whole equal range through Remove(iter, iter2) *)
+Definition remove_key_multi (t : tree) (k : Z) : tree * nat :=
+  let it := lower_bound t k in
+  if is_greater t it k then (t, 0)
+  else
+    let lb := iter_index t it in
+    let n := count_from (S (length (contents t))) t it k in
+    (fst (remove_range t lb (lb + n)), n).
 
 End Model.
